@@ -544,6 +544,12 @@ def check(run, db, tier):
     run.group(loop_rules, run, db)
     run.group(compose_rules, run, db)
     run.group(zernike_rules, run, db)
+    # the sequence forms are functions of the same families: their emitted values are held to the same definitions (shared with C08)
+    from .c02 import Proxy
+    from . import c08
+    run.rule('C07.seq', 'sequence forms: each emitted mode denotes the polynomial of the requested order (C08.emit), and shared per-|m| tables are not overwritten (C08.shared)')
+    run.group(c08.emit_rules, Proxy(run, {'C08.emit': 'C07.seq'}), db)
+    run.group(c08.shared_rules, Proxy(run, {'C08.shared': 'C07.seq'}), db)
     run.rule('C07.forbes', "Forbes' auxiliary coefficients (Qbfs f/g/h; Q2d A/B/C, gamma, F, G, f, g) equal the published formulas, case by case")
     run.group(forbes_rules, run, db)
     run.require_instances('C07.forbes', 23)
